@@ -303,6 +303,26 @@ def effect_task(kind, cls):
                     viol.append(z3.And(s0.pcond(), s1.pcond(), z3.Not(related(cls, a, b, kind)), r0 != r1))
         ob = lem.add("lemma:effect[%s]:write-%s-changes-only-documented-locations" % (kind, name), z3.Or(*viol) if viol else z3.BoolVal(True),
                      info={"detail": "write class %s %04X-%04X; read address b symbolic over 0000-FFFF" % (name, lo, hi)})
+        if name in SOUND and name not in ("NR50", "NR51"):
+            # NR52 is in the effect set of a channel register only through that channel's own status bit, and only in the documented
+            # direction: length (NRx1) and frequency-low (NRx3) writes never change it, envelope/DAC (NRx2, NR30) and sweep (NR10)
+            # writes can only switch the channel off, the control register NRx4 can do either
+            chn = int(name[2])
+            own_bit = 1 << (chn - 1)
+            nr52 = z3.BitVecVal(0xFF26, 16)
+            s0s = merge_outs(eng, call(ctx, eng, pre.fork(), M + "Read", [m, nr52]))
+            sv = []
+            for (sp, _) in posts:
+                for (s1, x1) in merge_outs(eng, call(ctx, eng, sp.fork(), M + "Read", [m, nr52])):
+                    for (s0, x0) in s0s:
+                        g = z3.And(s0.pcond(), s1.pcond())
+                        bad = [((x0 ^ x1) & (0xff ^ own_bit)) != 0]
+                        if name[3] in "13":
+                            bad.append(x0 != x1)
+                        elif name[3] in "02":
+                            bad.append(z3.And((x0 & own_bit) == 0, (x1 & own_bit) != 0))
+                        sv.append(z3.And(g, z3.Or(*bad)))
+            lem.add("lemma:effect[%s]:write-%s-touches-NR52-only-in-its-own-status-bit" % (kind, name), z3.Or(*sv) if sv else z3.BoolVal(True))
         # hidden state too (write-only registers, counters): the write stays inside the component that owns the address -
         # nothing at all changes for an unmapped address
         owner = owner_prefixes(cls)
@@ -320,3 +340,29 @@ def effect_task(kind, cls):
         lem.stats = dict(eng.stats)
         return lem
     return LemmaTask("effect[%s]:%s" % (kind, name), run, [M + "Write", M + "Read"])
+
+
+def invariant_tasks(ctx):
+    """the lemmas over the bus assume worldOK (the components' representation invariants) in an arbitrary reachable state: its
+    preservation by every step of the machine - the four per-cycle entry points and any bus write - is discharged alongside
+    (its base case is the power-on lemma)"""
+    from engine.driver import Task
+    from props.mem_common import keep_labels
+    import props.audio_common as ac
+    from engine import vsl
+    INV = keep_labels({"inv", "ok", "xinv", "valid", "phase", "pal"}, kinds=("requires",))
+
+    def mbc_valid(kind):
+        def f(w, st, args):
+            ce = w.e.ev
+            env = {"m": vsl.TV(args[0], ce.ev.ty_of(ptr_tid(w.p, "memory.Mapper")))}
+            return ce.ev.as_bool(ce.ev.eval(vsl.parse("%s(m.mbc)" % MBC_VALID[kind]), env, st, st))
+        return f
+    ov1 = {"Audio.ch2.sweep": nil_value, "Mapper.mbc": mbc_override("mbc1")}
+    ts = [Task(M + "Write[invariants]", M + "Write", overrides=ov1, extra_requires=[mbc_valid("mbc1")], keep=INV),
+          Task(M + "EndMachineCycle[mbc3]", M + "EndMachineCycle", variant="mbc3",
+               overrides={"Audio.ch2.sweep": nil_value, "Mapper.mbc": mbc_override("mbc3")}, extra_requires=[mbc_valid("mbc3")], keep=INV),
+          Task("(*timer.Timer).EndMachineCycle", "(*timer.Timer).EndMachineCycle", keep=INV),
+          Task("(*ppu.PPU).EndMachineCycle", "(*ppu.PPU).EndMachineCycle", keep=INV),
+          ac.invariant_task("(*audio.Audio).EndMachineCycle")]
+    return ts
